@@ -423,34 +423,30 @@ fn verif_split_multi<'a>(s: &'a str) -> (r: std::vec::IntoIter<&'a str>)
 pub assume_specification[ <String as PartialEq<str>>::ne ](a: &String, b: &str) -> (r: bool)
     ensures r == (a@ != b@);
 
-#[verifier::external_body]
-pub struct VerifPartsMap {
-    _p: core::marker::PhantomData<()>,
-}
+// ---- &str as a hash key (the part -> owning job map of new_history is a HashMap<&str, String>)
+pub broadcast axiom fn axiom_str_ext(a: &str, b: &str)
+    requires #[trigger] a@ == #[trigger] b@,
+    ensures a == b;
+pub broadcast axiom fn axiom_strref_key_model()
+    ensures #[trigger] vstd::std_specs::hash::obeys_key_model::<&str>();
+pub broadcast axiom fn axiom_strref_contains_borrowed<'a, V>(m: Map<&'a str, V>, k: &str)
+    ensures #[trigger] vstd::std_specs::hash::contains_borrowed_key::<&'a str, V, str>(m, k)
+        <==> exists|s: &'a str| #![trigger m.contains_key(s)] s@ == k@ && m.contains_key(s);
+pub broadcast axiom fn axiom_strref_maps_borrowed<'a, V>(m: Map<&'a str, V>, k: &str, v: V)
+    ensures #[trigger] vstd::std_specs::hash::maps_borrowed_key_to_value::<&'a str, V, str>(m, k, v)
+        <==> exists|s: &'a str| #![trigger m.contains_key(s)] s@ == k@ && m.contains_key(s) && m[s] == v;
 
-impl VerifPartsMap {
-    /// part -> id of the present job that was inserted last for it
-    pub uninterp spec fn owner(&self, part: Seq<char>) -> Option<Seq<char>>;
+/// every sequence of chars is the content of some str
+pub uninterp spec fn strref_of(v: Seq<char>) -> &'static str;
+pub broadcast axiom fn axiom_strref_of(v: Seq<char>)
+    ensures (#[trigger] strref_of(v))@ == v;
 
-    #[verifier::external_body]
-    pub fn get(&self, part: &str) -> (r: Option<&String>)
-        ensures
-            r is Some <==> self.owner(part@) is Some,
-            r is Some ==> r.unwrap()@ == self.owner(part@).unwrap(),
-    {
-        unimplemented!()
-    }
-}
-
-#[verifier::external_body]
-fn verif_multi_parts_to_jobs(jobs: &Vec<NodeInfo>) -> (r: VerifPartsMap)
-    ensures
-        forall|p: Seq<char>| #![trigger r.owner(p)] r.owner(p) is Some ==> exists|i: int| 0 <= i < jobs@.len()
-            && #[trigger] jobs@[i].job_id@ == r.owner(p).unwrap() && parts(jobs@[i].job_id@).contains(p),
-        forall|i: int, p: Seq<char>| 0 <= i < jobs@.len() && #[trigger] parts(jobs@[i].job_id@).contains(p)
-            ==> r.owner(p) is Some,
-{
-    unimplemented!()
+pub broadcast group group_verif_strref_axioms {
+    axiom_strref_of,
+    axiom_str_ext,
+    axiom_strref_key_model,
+    axiom_strref_contains_borrowed,
+    axiom_strref_maps_borrowed,
 }
 
 // ---- A-derive: #[derive(PartialEq)] on the engine's enums is structural equality.
@@ -587,3 +583,4 @@ fn verif_filter_map_collect_set<F: Fn(&NodeInfo) -> Option<String>>(jobs: &Vec<N
 {
     unimplemented!()
 }
+
